@@ -16,6 +16,7 @@ import random
 from hypothesis import strategies as st
 
 from vf.core import hyp, pool
+from vf.core.lib import library_exceptions_are_findings as _guard
 from vf.core.stats import Finding, Stats
 from vf.ref import dns as ref
 
@@ -237,9 +238,20 @@ class _Judge(object):
     def add(self, clause, detail):
         self.findings.append(Finding('%s/%s' % (clause, self.locus), detail))
 
+    def construct(self, factory, model_brief):
+        """The object for an in-domain model, or None (a constructor that refuses a value the wire format can carry
+        is a finding, not a harness error)."""
+        try:
+            return factory()
+        except Exception as e:  # pylint: disable=broad-except
+            self.add('construct-fails:%s' % type(e).__name__, {'model': model_brief, 'error': repr(e)[:300]})
+            return None
+
     def compose(self, obj, expected, model_brief, valid=None):
         """Returns the composed bytes or None.  `valid(bytes)` replaces byte equality where several encodings are
         conformant."""
+        if obj is None:
+            return None
         try:
             composed = bytes(obj.compose())
         except Exception as e:  # pylint: disable=broad-except
@@ -371,9 +383,9 @@ def _check_ds(case):
     if ref.decode_ds(rdata) != want:
         raise AssertionError('reference codec does not round-trip: %r' % (case,))
     judge = _Judge('DnsRecordDs')
-    obj = L.record.DnsRecordDs(
+    obj = judge.construct(lambda: L.record.DnsRecordDs(
         key_tag=case['key_tag'], algorithm=L.algorithm_by_code[case['algorithm']],
-        digest_type=L.digest_by_code[case['digest_type']], digest=digest)
+        digest_type=L.digest_by_code[case['digest_type']], digest=digest), case)
     judge.compose(obj, rdata, case)
     parsed = judge.parse(L.record.DnsRecordDs, rdata, case)
     if parsed is not None:
@@ -401,7 +413,7 @@ def _check_rrsig(case):
         raise AssertionError('reference codec does not round-trip: %r' % (case,))
     judge = _Judge('DnsRecordRrsig')
     brief = dict(case, signature=_brief(case['signature'], 40))
-    obj = L.record.DnsRecordRrsig(
+    obj = judge.construct(lambda: L.record.DnsRecordRrsig(
         type_covered=_rrtype(case['type_covered']),
         algorithm=L.algorithm_by_code[case['algorithm']],
         labels=case['labels'],
@@ -411,7 +423,7 @@ def _check_rrsig(case):
         key_tag=case['key_tag'],
         signers_name=_build_name(case['signer']),
         signature=signature,
-    )
+    ), brief)
     judge.compose(obj, rdata, brief)
     parsed = judge.parse(L.record.DnsRecordRrsig, rdata, brief)
     if parsed is not None:
@@ -445,7 +457,8 @@ def _check_mx(case):
     if ref.decode_mx(rdata) != {'preference': case['preference'], 'exchange': wire}:
         raise AssertionError('reference codec does not round-trip: %r' % (case,))
     judge = _Judge('DnsRecordMx')
-    obj = L.record.DnsRecordMx(priority=case['preference'], exchange=_build_name(case['exchange']))
+    obj = judge.construct(
+        lambda: L.record.DnsRecordMx(priority=case['preference'], exchange=_build_name(case['exchange'])), case)
     judge.compose(obj, rdata, case)
     parsed = judge.parse(L.record.DnsRecordMx, rdata, case)
     if parsed is not None:
@@ -505,6 +518,7 @@ _CHECKS = {
 }
 
 
+@_guard
 def check_case(case):
     return _CHECKS[case['kind']](case)
 
